@@ -19,4 +19,4 @@ def run(chk, args):
         mc_search(chk, "n3k3", N=3, game=1, comp="sac", rep=0, gap="exploitability", maxsize=3, procs={1, 2, 3}, timeout=3000)
         mc_search(chk, "n4k2", N=4, game=2, comp="sac", rep=0, gap="exploitability", maxsize=2, procs={1, 4}, extra={3, 5, 6, 9, 10, 12, 7}, timeout=3000)
     validate_search(chk, "search", "3,4", 6 if q else 40, "1,2,3,4" if q else "1,2,3,4,5,6,8,12,16")
-    validate_search(chk, "best", "3,4", 8 if q else 60, "1,2,3" if q else "1,2,3,4,6,8")
+    validate_search(chk, "best", "3,4", 16 if q else 80, "1,2,3" if q else "1,2,3,4,6,8")
